@@ -516,6 +516,20 @@ func ruleH2(c *Ctx) {
 					bad = append(bad, "Triple.UUID does not include the full UUID of component "+k)
 				}
 			}
+			// on every path: subject, predicate, object, each from its own component, in that order
+			wantPrefix := []string{"(*node.Node).UUID(", "(*predicate.Predicate).UUID(", "(*triple.Object).UUID("}
+			for _, s := range order {
+				sh := shapes[s]
+				okShape := len(sh) == 3
+				for i := 0; okShape && i < 3; i++ {
+					if sh[i].kind != "uuid16" || !strings.HasPrefix(sh[i].s, wantPrefix[i]) {
+						okShape = false
+					}
+				}
+				if !okShape {
+					bad = append(bad, "on some path Triple.UUID hashes "+s+" instead of (subject UUID ‖ predicate UUID ‖ object UUID): a slot filled from another component makes different triples share an identity")
+				}
+			}
 		}
 		sort.Strings(bad)
 		for id, msg := range pat {
